@@ -45,7 +45,7 @@ def geometry(rng, kind=None, want=None):
         table = [t for t in table if t[0] in want]
     return rng.choice(table)
 
-def build_image(rng, geo, populate=1, free_left=None, dirty_free=0, second_partition=False, full_root=False, big_dir=False, exact_dir=False, ensure_big=False, blank_label=None, stale_tail=False):
+def build_image(rng, geo, populate=1, free_left=None, dirty_free=0, second_partition=False, full_root=False, big_dir=False, exact_dir=False, ensure_big=False, blank_label=None, stale_tail=False, boundary=False):
     """returns (Image, meta) ; meta: tree description for the generators"""
     name, kw = geo
     img = fatimg.Image()
@@ -117,6 +117,18 @@ def build_image(rng, geo, populate=1, free_left=None, dirty_free=0, second_parti
         used = getattr(v.root, "_used", 0)
         for i in range(v.root_entries - used):
             v.add_file(v.root, "R%d.F" % i, b"")
+    if boundary:
+        # a filler file ends two clusters below a FAT-sector boundary (an ODD sector follows: FAT16 256 entries per sector,
+        # FAT32 128), so the next allocations put a chain's last link and its new end mark into different FAT sectors
+        per = 128 if kw["fat32"] else 256
+        first = v.free_clusters()[0]
+        k = first // per + 1
+        if k % 2 == 0:
+            k += 1
+        tgt = k * per - 2
+        if tgt + 8 < v.N and tgt > first:
+            node = v.add_file(v.root if not (full_root or small_root) else meta["dirs"].get("/SUB", v.root), "FILLER.BIN", b"", nclusters=tgt - first)
+            node.size = 0
     if free_left is not None:
         free = v.free_clusters()
         take = len(free) - free_left
